@@ -675,9 +675,12 @@ def _slot_scope(ctx):
             want = _expected(tree)
             try:
                 doc = _flatten(w, tree)
-                got = _parse(doc)
             except ModelRaised as e:
-                doc, got = f"raises {e.name}", None
+                doc = f"raises {e.name}"
+            try:
+                got = _parse(doc) if isinstance(doc, bytes) else None
+            except Exception:           # not well-formed: it certainly does not parse back to the tree that was built
+                got = None
             if got != want:
                 bad.append((tree, doc, got, want))
     msg = ""
